@@ -52,6 +52,8 @@ type RegOp struct {
 	UseBind bool `json:"use_bind,omitempty"`
 	// Wait: triggers awaited before the operation.
 	Wait string `json:"wait,omitempty"`
+	// DeadlineUs > 0: the helper call runs under a context with this (generous) deadline.
+	DeadlineUs int `json:"deadline_us,omitempty"`
 }
 
 func (s *RegScenario) Cfg() sim.Config { return s.Config }
@@ -134,6 +136,10 @@ func (s *RegScenario) Setup(k *sim.Kernel) {
 			}
 			for i, op := range ops {
 				awaitTriggers(op.Wait, network, addr)
+				ctx := ctx
+				if op.DeadlineUs > 0 {
+					ctx = sim.NewCtx(time.Duration(op.DeadlineUs) * time.Microsecond)
+				}
 				o := regObs{Actor: ai, I: i, Op: op.Op, Name: op.Name, Desc: op.Desc}
 				switch op.Op {
 				case "wait":
@@ -783,6 +789,12 @@ func genC13(seed uint64, tier string) Scenario {
 					op.Op, op.Name = "resolve", g.Pick("org.varlink.resolver", pool[g.IntN(len(pool))], "nope")
 				default:
 					op.Op = "getinfo"
+				}
+				if g.Pct(10) {
+					op.DeadlineUs = 3600e6
+				}
+				if !first && op.Wait == "" && g.Pct(8) {
+					op.Wait = "sleep:7200000000"
 				}
 				ops = append(ops, op)
 			}
